@@ -123,7 +123,12 @@ Section Log.
   | LNew (saveto sep : str)
   | LCall (id : nat) (sigs : list (str * lval))
   | LWrite (name content : str)
-  | LRemove (name : str).
+  | LRemove (name : str)
+  (* Module.reset() of instance id (directly or through the reset() of a Network that contains it) and
+     Module.sensitivity(): "clear / propagate the sensitivities".  ScalarToFile defines neither _reset nor
+     _sensitivity: no attribute of the instance and no file changes *)
+  | LReset (id : nat)
+  | LSens (id : nat).
 
   Fixpoint lset_nth {A} (l : list A) (k : nat) (x : A) : list A :=
     match l, k with
@@ -144,7 +149,12 @@ Section Log.
       end
     | LWrite name content => Ok (fs_open_w fs name content, mods)
     | LRemove name => Ok (fs_remove fs name, mods)
+    | LReset id | LSens id => match nth_error mods id with None => Err OtherError | Some _ => Ok (fs, mods) end
     end.
+
+  (* the events that concern the sensitivities only *)
+  Definition l_quiet (e : levent) : bool := match e with LReset _ | LSens _ => true | _ => false end.
+  Definition l_strip (events : list levent) : list levent := filter (fun e => negb (l_quiet e)) events.
 
   (* the file system after every event; the history stops at the first exception, whose class is reported (0: none);
      the failing event leaves the files as they were (last entry of the trace) *)
@@ -165,3 +175,5 @@ Arguments LNew {V} saveto sep.
 Arguments LCall {V} id sigs.
 Arguments LWrite {V} name content.
 Arguments LRemove {V} name.
+Arguments LReset {V} id.
+Arguments LSens {V} id.
